@@ -6,9 +6,11 @@ import parsecorr
 from framework import Result
 
 ID = 'C16'
-LEAN_TARGETS = ['TexSoupProofs.Properties.C16']
-THEOREMS = ['TexSoup.C16.' + n for n in ('output_is_input', 'fixpoint_nodrop', 'second_pass_sublist')]
-PARTIAL = ['the general case in which spacers were dropped (fixpoint_squeeze) is explored by the oracle, not proved']
+LEAN_TARGETS = ['TexSoupProofs.Properties.C16', 'TexSoupProofs.Properties.C16Grammar']
+THEOREMS = ['TexSoup.C16.' + n for n in ('output_is_input', 'fixpoint_nodrop', 'second_pass_sublist')] + [
+    'TexSoup.C16G.serialisation_is_squeezed_text', 'TexSoup.C16G.squeezed_wf', 'TexSoup.C16G.squeezed_same_tree', 'TexSoup.C16G.reparse_fixed_point', 'TexSoup.C16G.noBareSizing_spec', 'TexSoup.C16G.reparse_fixed_point_of_source', 'TexSoup.C16G.reparse_exact']
+PARTIAL = ['for arbitrary strings over the token-kind alphabet the squeeze case is explored by the oracle; it is proved for every '
+           'well-formed document of the grammar (C16G.reparse_fixed_point_of_source) and, for all inputs, in the no-drop case']
 TRUSTED = ['harness/gen_tables.py', 'correspondence harness (parsecorr.py): parse of s and of the serialised text',
            'modelled, not verified: control flow of reader.py, tokens.py, data.py serialisers']
 ASSUMPTIONS = ['CPython str semantics', 'the model driver is the compiled form of the verified definitions']
